@@ -8,6 +8,7 @@ import (
 	"net/url"
 	"os"
 	"sort"
+	"strings"
 
 	"github.com/renbou/grpcbridge/bridgedesc"
 	"github.com/renbou/grpcbridge/grpcadapter"
@@ -22,7 +23,8 @@ type pool struct{}
 
 func (pool) Get(string) (grpcadapter.ClientConn, bool) { return nil, true }
 
-var methods = []string{"GET", "POST", "PUT", "CUSTOM"}
+// HTTP methods are case-sensitive tokens: custom binding kinds in lower and mixed case, and requests in the other case
+var methods = []string{"GET", "POST", "PUT", "CUSTOM", "purge", "PURGE", "Search", "get"}
 
 func main() {
 	w := vc.NewWriter(os.Args[1])
@@ -136,6 +138,11 @@ func main() {
 			method := methods[rr.Intn(len(methods))]
 			if preferred != "" && rr.Chance(80) {
 				method = preferred
+				if rr.Chance(12) {
+					method = strings.ToUpper(method)
+				} else if rr.Chance(6) {
+					method = strings.ToLower(method)
+				}
 			} else if rr.Chance(50) {
 				method = "POST"
 			}
